@@ -275,6 +275,12 @@ func (s *Shard) setEpochEventHandler(e Event) {
 			continue
 		}
 
+		if uint64(unpaidSince) > ne.epoch {
+			// the unpaid mark is newer than the epoch being processed (delayed
+			// event), subtraction below would wrap around
+			continue
+		}
+
 		if ne.epoch-uint64(unpaidSince) >= maxUnpaidEpochDelay {
 			l.Info("marking unpaid container as garbage",
 				zap.Stringer("cID", cID), zap.Int64("unpaidSince", unpaidSince))
